@@ -532,6 +532,7 @@ type caseRun struct {
 	hookErrInjected    bool
 	pauseSeen          bool // the script issued a pause (API or block hook)
 	mgrStuck           bool // the manager goroutine did not answer a PeerState query at a quiescent point
+	cancelFam          bool // the script issued a stimulus that cancels the request context (cancel, failure status, response-hook error)
 	quiesceFailed      bool
 }
 
@@ -639,7 +640,18 @@ func (cr *caseRun) obs(extra string) {
 	if w.pClosed {
 		p += "c"
 	}
-	e := strings.Join(w.eEvents, ",")
+	evs := w.eEvents
+	if cr.cancelFam {
+		// once the script has cancelled the request (or made it fail), the executor's final traversal error
+		// races with the cancelled request context in ExecuteTask's last `select`: not compared
+		evs = nil
+		for _, k := range w.eEvents {
+			if k != "other" {
+				evs = append(evs, k)
+			}
+		}
+	}
+	e := strings.Join(evs, ",")
 	if w.eClosed {
 		e += "c"
 	}
@@ -870,6 +882,9 @@ func runCase(c reg.Case, out *reg.Out) {
 				continue
 			}
 			pr, status, items, hk := atoi(op[1]), atoi(op[2]), atoi(op[3]), op[4]
+			if isFailure(status) || hk == "err" {
+				cr.cancelFam = true
+			}
 			// oracle bookkeeping before the stimulus
 			if pr == 0 && hk == "ok" && (isFailure(status) || isSuccessC(status)) {
 				cr.termSent, cr.lastTermStatus = true, status
@@ -909,14 +924,16 @@ func runCase(c reg.Case, out *reg.Out) {
 				continue
 			}
 			cr.cancelIssued = true
+			cr.cancelFam = true
 			cr.covPoint("cancelctx")
 			if !cr.ctxCancelled {
 				cr.ctxCancelled = true
-				w.mu.Lock()
-				cr.ctxCancelWhileOpen = !w.eIsClosed
-				w.mu.Unlock()
+				// "cancelled while the request is still open": judged by the manager still tracking the request
+				// (then inProgressErr cannot be closed yet).  Whether the harness' own reader has already SEEN
+				// a close is no criterion: a held reader has not, although the collector finished long ago.
 				if known, live := cr.live(); known && live {
 					cr.ctxCancelLive = true
+					cr.ctxCancelWhileOpen = true
 				}
 			}
 			cr.reqCtxCancel()
@@ -927,6 +944,7 @@ func runCase(c reg.Case, out *reg.Out) {
 				continue
 			}
 			cr.cancelIssued = true
+			cr.cancelFam = true
 			cr.covPoint("cancelapi")
 			if cr.apiCancels == 0 {
 				cr.apiCancelNoCause = !cr.terminalCause
